@@ -1,12 +1,16 @@
 (* C12: client of T1K for src/fiber_barrier.c — any number of fibers performing
    consecutive fiber_barrier_wait calls on one barrier (object 0: word =
-   counter, list = waiters; [count] is the immutable barrier->count).
-   Harness: rt/h_barrier.c.
+   counter, list = waiters[0]; object 1: list = waiters[1]; [count] is the
+   immutable barrier->count).  Harness: rt/h_barrier.c.
 
-   fiber_barrier_wait:
+   fiber_barrier_wait (repaired code, /repo 20d3952):
      new = atomic_fetch_add(&counter, 1) + 1          (seq_cst, 64 bit)
+     waiters = &barrier->waiters[((new - 1) / count) & 1]
      if (new % count == 0) { wake_from_mpsc_queue(waiters, count-1); return 1; }
      else                  { wait_in_mpsc_queue(waiters);            return 0; }
+   The boolean [two] selects that behaviour; [two = false] is the ORIGINAL
+   protocol (one list for all rounds, finding F-C12), kept only for the
+   regression theorem barrier_round_safety_one_list_refuted.
 
    Harness events: before its k-th call a fiber emits (t, k, 919, 1) ("entered
    round k"), after it (t, k, 909, r). *)
@@ -32,39 +36,45 @@ Definition start (t n k : nat) : list Z * stack bc :=
   | S n' => (entev t k, [WFAdd 0 1 5; FC (BArrived n' k)])
   end.
 
-Definition cret (count : Z) (m : kmem) (t : nat) (c : bc) (v : Z) : kmem * list Z * stack bc :=
+(* the waiter list used by the call that fetched v *)
+Definition lsel (two : bool) (count v : Z) : nat :=
+  if two then Z.to_nat ((v / count) mod 2) else O.
+
+Definition cret (two : bool) (count : Z) (m : kmem) (t : nat) (c : bc) (v : Z) : kmem * list Z * stack bc :=
   match c with
   | BNext n k => let '(e, s) := start t n k in (m, e, s)
   | BArrived n k =>
       (* v = old counter value *)
       if (v + 1) mod count =? 0
-      then (m, [], [KHead 0 (count - 1) 0; FC (BRet n k 1)])
-      else (m, [], [WSaving 0; FC (BRet n k 0)])
+      then (m, [], [KHead (lsel two count v) (count - 1) 0; FC (BRet n k 1)])
+      else (m, [], [WSaving (lsel two count v); FC (BRet n k 0)])
   | BRet n k r => let '(e, s) := start t n (S k) in (m, retev t k r ++ e, s)
   end.
 
-Record st := { mem : kmem; stk : nat -> stack bc; nthr : nat; cnt : Z }.
+Record st := { mem : kmem; stk : nat -> stack bc; nthr : nat; cnt : Z; two : bool }.
 
 Definition step (s : st) (t : nat) : st * list Z :=
-  let '(m1, e1, s1) := kstep bc (cret (cnt s)) (mem s) t (stk s t) in
-  ({| mem := m1; stk := upd (stk s) t s1; nthr := nthr s; cnt := cnt s |}, e1).
+  let '(m1, e1, s1) := kstep bc (cret (two s) (cnt s)) (mem s) t (stk s t) in
+  ({| mem := m1; stk := upd (stk s) t s1; nthr := nthr s; cnt := cnt s; two := two s |}, e1).
 
 Definition status_of (s : st) (t : nat) : status :=
   if (t <? nthr s)%nat then kstatus bc (mem s) t (stk s t) else SDone.
 
 (* rounds t = number of consecutive waits fiber t performs *)
-Definition init (count : Z) (rounds : list nat) : st :=
-  {| mem := kinit 1 (fun _ => 0);
+Definition init (tw : bool) (count : Z) (rounds : list nat) : st :=
+  {| mem := kinit 2 (fun _ => 0);
      stk := fun t => [Start; FC (BNext (nth t rounds O) 1)];
-     nthr := length rounds; cnt := count |}.
+     nthr := length rounds; cnt := count; two := tw |}.
 
 Definition M : machine :=
   {| mstate := st; mstep := step; mstatus := status_of; mthreads := nthr |}.
 
-(* params: dmax, count; a fiber's program = one op per round *)
+(* params: dmax, count [, lists]; lists = 1 selects the original one-list protocol
+   (default: two lists, the current code); a fiber's program = one op per round *)
 Definition run_case (l : list Z) : list Z :=
   match decode_case l with
-  | Some c => run_all M (init (nthZ (c_params c) 1) (map (@length _) (c_progs c))) [] (c_sched c)
+  | Some c => run_all M (init (negb (nthZ (c_params c) 2 =? 1)) (nthZ (c_params c) 1)
+                              (map (@length _) (c_progs c))) [] (c_sched c)
                       (Z.to_nat (nthZ (c_params c) 0))
   | None => [(-1)%Z]
   end.
